@@ -881,6 +881,16 @@ func (g *Gen) VerifyFunction(fn *ssa.Function, fc *FuncContract) error {
 		sts = append(sts, r.st)
 	}
 	exitReach := g.define("reach.exit", SBool, sOr(conds...))
+	// vacuity guards: some return is reachable under all assumptions made so far (requires, callee postconditions,
+	// loop invariants); per-return covers are informational (a return may legitimately be excluded by the preconditions)
+	{
+		o := g.oblige("cover", fr.oname("cover", "exit"), "cover", fc.Props, exitReach, "true", "some return is reachable under all assumptions", token.NoPos)
+		o.Expect = "sat"
+		for i, r := range fr.rets {
+			o := g.oblige("cover-info", fr.oname("cover", fmt.Sprintf("return%d", i+1)), "cover", fc.Props, r.reach, "true", "this return is reachable under all assumptions", token.NoPos)
+			o.Expect = "sat"
+		}
+	}
 	exit := fr.mergeStates(conds, sts)
 	nres := fn.Signature.Results().Len()
 	results := make([]Val, nres)
@@ -941,11 +951,6 @@ func (g *Gen) VerifyFunction(fn *ssa.Function, fc *FuncContract) error {
 		if err := fr.frameObligations(exit, exitReach, entryEnv); err != nil {
 			return err
 		}
-	}
-	// covers: every return reachable
-	for i, r := range fr.rets {
-		o := g.oblige("cover", fr.oname("cover", fmt.Sprintf("return%d", i+1)), "cover", fc.Props, r.reach, "true", "return reachable under all assumptions", token.NoPos)
-		o.Expect = "sat"
 	}
 	return nil
 }
